@@ -301,6 +301,28 @@ fn frame_matrix(e: &Env, tier: Tier, a: &mut Acc) {
                 assert!(process_tx(&mut s0, &Tx::one(ix::configure_bank_emode(e.w.group, e.w.roles.emode, src, 11, arr), &[e.w.roles.emode])).ok());
             }
             for c in cases(e, bank_idx, &s0, tier) {
+                // the same request with the role's key merely named, not signing (a stranger signs): nobody's remit
+                if c.role != RoleMask::Nobody {
+                    let mut ixs = c.ixs.clone();
+                    for i in ixs.iter_mut() {
+                        for m in i.accounts.iter_mut() {
+                            if c.signers.contains(&m.pubkey) {
+                                m.is_signer = false;
+                            }
+                        }
+                    }
+                    let mut t = s0.clone();
+                    let r = process_tx(&mut t, &Tx::new(ixs, &[crate::act::stranger()]));
+                    a.cells += 1;
+                    let kind = c.name.split(':').next().unwrap().to_string();
+                    *a.classes.entry(format!("{}:unsigned:{}", kind, if r.ok() { "ok" } else { "refused" })).or_insert(0) += 1;
+                    if r.ok() {
+                        let d = diff(&s0, &t, &bk);
+                        if !d.bank_regions.is_empty() || !d.others.is_empty() || d.flag_bits_changed != 0 {
+                            a.found.push(Found { clause: "C12.role_writes_only_its_fields".into(), sig: format!("{}:unsigned", kind), detail: format!("{} changed the bank ({:?}) although the {:?} key did not sign", c.name, d.bank_regions, c.role), replay: json!({"model": "C12a", "bank": bank_idx, "frozen": frozen, "preset_flags": preset, "case": c.name, "unsigned": true}) });
+                        }
+                    }
+                }
                 let mut t = s0.clone();
                 let r = process_tx(&mut t, &Tx::new(c.ixs.clone(), &c.signers));
                 a.cells += 1;
